@@ -26,6 +26,7 @@ props! {
     c06 => "C06",
     c07 => "C07",
     c08 => "C08",
+    c09 => "C09",
     c11 => "C11",
     c12 => "C12",
     c14 => "C14",
